@@ -57,19 +57,19 @@ PROPS = {
     },
     "C04": {
         "stages": [sim(20, 360), real(8, 180), real(0, 120, tiers=("thorough",), n2="tsan")],
-        "rule": "wide random DAGs (4-24 steps) with 0-3 pools of depth 0-3 plus console, -j 1-8, failures that free slots, policies that keep pools full; online monitor at every start (|running| <= j, per-pool <= depth, using the generator's pool assignment) and at every scheduler iteration (n2's own counters == harness running set); non-trivial = a limit was binding at some instant (something queued while -j or its pool was full) and commands ran; distinct by hash(shape, config, event sequence)",
+        "rule": "wide random DAGs (4-24 steps) with 0-3 pools of depth 0-3 plus console, -j 1-8, failures that free slots, policies that keep pools full; online monitor at every start (|running| <= j, per-pool <= depth, using the generator's pool assignment) and at every scheduler iteration (n2's own counters == harness running set); non-trivial = a limit was binding at some instant (something queued while -j or its pool was full) and commands ran; distinct by hash(shape, config, event sequence); deep-pool cases (depth 8-33 with -j above it); black box: gated sessions in which every command prints 1-33 MB and then blocks: the number of announced, unreleased commands must never exceed -j / the pool depth",
         "must_observe": ["events", "limit_binding_instants", "undeclared_pool_cases"],
         "assumptions": SIM_ASSUME,
     },
     "C05": {
         "stages": [sim(20, 420), real(14, 180)],
-        "rule": "random DAGs x fault plans (1-3 failing steps: write nothing / all / some outputs then fail; interrupts) x -k in {1,2,3,100} x -j x completion orders (systematic for small cases); online containment and budget monitors, exit status check, and a fault-free follow-up invocation whose started set must equal the reference model's prediction; non-trivial = at least one failure, one step blocked by it and one unblocked step that ran",
+        "rule": "random DAGs x fault plans (1-3 failing steps: write nothing / all / some outputs then fail; interrupts) x -k in {1,2,3,100} x -j x completion orders (systematic for small cases); online containment and budget monitors, exit status check, and a fault-free follow-up invocation whose started set must equal the reference model's prediction; non-trivial = at least one failure, one step blocked by it and one unblocked step that ran; black box, gated: SIGINT sent to the process group with a known set of commands executing, some of which trap it and exit 0 without producing their output (exit 0 only if every output exists); a step whose command text exceeds the kernel's per-argument limit (cannot be spawned: exit status non-zero, independent steps still built, same again on the next invocation)",
         "must_observe": ["events", "followups_checked"],
         "assumptions": SIM_ASSUME,
     },
     "C06": {
         "stages": [sim(20, 360), real(12, 150)],
-        "rule": "random DAGs incl. injected ordering cycles (must be rejected with a real cycle listed, nothing of the cycle started) and validation-only cycles (must be accepted), generated manifests settled in phase 1, all -j/-k/pool combinations, systematic completion orders on small cases; hang = wait with nothing running / scheduler iterations without events beyond 4*steps+16 / panic; non-trivial = >= 3 steps with a step waiting for >= 2 producers, or a cyclic case; black box: dependency chains of 500-2000 steps (thorough: also 60000, known finding F13) through `-t restat` must be walked without a crash",
+        "rule": "random DAGs incl. injected ordering cycles (must be rejected with a real cycle listed, nothing of the cycle started) and validation-only cycles (must be accepted), generated manifests settled in phase 1, all -j/-k/pool combinations, systematic completion orders on small cases; hang = wait with nothing running / scheduler iterations without events beyond 4*steps+16 / panic; non-trivial = >= 3 steps with a step waiting for >= 2 producers, or a cyclic case; black box: dependency chains of 500-2000 steps (thorough: also 60000, known finding F13) through `-t restat` must be walked without a crash; commands that leave later declared outputs unwritten; black box: depfiles left by successful commands (missing paths, directories, malformed, random bytes, ending in a backslash) must end in a decision within the watchdog",
         "must_observe": ["events", "cyclic_cases", "validation_cycle_cases"],
         "assumptions": SIM_ASSUME,
     },
@@ -81,7 +81,7 @@ PROPS = {
     },
     "C19": {
         "stages": [sim(20, 300), real(6, 120)],
-        "rule": "C01/C05 workloads with the progress monitor on: at every Progress::update and scheduler iteration total == non-phony wanted steps, counts == histogram of per-step states, count[running] == executor's running set, done+failed monotone, task_started/finished bracket executor events, final `ran N` == successful completions; non-trivial = execution with a wanted phony step, an up-to-date step and a step that ran",
+        "rule": "C01/C05 workloads with the progress monitor on: at every Progress::update and scheduler iteration total == non-phony wanted steps, counts == histogram of per-step states, count[running] == executor's running set, done+failed monotone, task_started/finished bracket executor events, final `ran N` == successful completions; non-trivial = execution with a wanted phony step, an up-to-date step and a step that ran; black box: gated pty sessions (2-14 commands, -j up to 16, pools, phony aliases, failing commands, hide_progress): whenever the build is frozen the display's D/T done, R/M running must converge to the true finished / total / executing / in-flight counts; over the whole run totals constant, finished monotone",
         "must_observe": ["events", "progress_updates_observed"],
         "assumptions": SIM_ASSUME,
     },
@@ -100,8 +100,8 @@ PROPS = {
     "C07": {
         "level": "fault_enumeration",
         "stages": [sim(30, 480), real(10, 240), real(0, 120, tiers=("thorough",), n2="asan")],
-        "rule": "for generated histories (0-2 complete builds with edits, then a build that is abandoned): every db write of that build x every byte count 0..len that reaches the file (quick: all counts for records <= 12 bytes, first/last 4 and a third of the middle counts for longer ones; thorough: all), fault injected at the hook in front of every append; then a fault-free build (must load the log, run exactly the model's prediction with the record store = completely written records, and what n2 loaded per step must equal what an independent reader of the file finds), the log must then be a well-formed file, and a third build must be a no-op; non-trivial = crash strictly inside a record; distinct by (graph shape, write index, byte count)",
-        "must_observe": ["crash_points", "crash_points_mid_record"],
+        "rule": "for generated histories (0-2 complete builds with edits, then a build that is abandoned): every db write of that build x every byte count 0..len that reaches the file (quick: all counts for records <= 12 bytes, first/last 4 and a third of the middle counts for longer ones; thorough: all), fault injected at the hook in front of every append; then a fault-free build (must load the log, run exactly the model's prediction with the record store = completely written records, and what n2 loaded per step must equal what an independent reader of the file finds), the log must then be a well-formed file, and a third build must be a no-op; non-trivial = crash strictly inside a record; distinct by (graph shape, write index, byte count); logs above 8 KiB in which records end exactly at multiples of 8192 bytes (built by padding names), then no-op, edit, build, no-op",
+        "must_observe": ["crash_points", "crash_points_mid_record", "aligned_log_histories"],
         "assumptions": SIM_ASSUME + ["crash model: a byte prefix of what n2 appends reaches the file (no reordering/loss of earlier writes)"],
     },
     "C08": {
@@ -136,13 +136,13 @@ PROPS = {
     },
     "C12": {
         "stages": [pure(30, 420), real(6, 120), asan_pure(120), miri(400), real(0, 90, extra=["--wrap", "valgrind -q --error-exitcode=99 --trace-children=no"], tiers=("thorough",), n2="release"), fuzz("manifest", 240)],
-        "rule": "(i) exhaustive: all sequences of <= 4 (quick) / 5 (thorough) tokens over 34 Ninja tokens (keywords, identifiers, spaces, newline, : | || |@ = $ '$ ' $-newline ${ } $x # tab NUL CR e-acute 0xff . .. / digit), each with and without a final newline, loaded from memory; (ii) mutations of valid generated manifests (truncate at a byte, delete/duplicate/swap ranges, raw bytes, dropped final newline, 10-800 character lines of multi-byte characters around an error, paths of 1-200 components, empty expansions); (iii) raw random bytes; (iv) depfile bytes; (v) deep/empty paths straight into the canonicaliser; (vi) include/subninja of itself, of a cycle, of a directory, of a missing file, of an empty expansion. Oracle: no panic, no abort (ub_checks/overflow/stack overflow kill the worker and are attributed by bisection), Ok or a non-empty diagnostic; parse errors must have the `parse error: ...`, `<file>:<line>: excerpt`, caret-line shape with the line in range; non-trivial = input that gets past the first statement keyword; evidence lists the distinct parser outcomes reached",
+        "rule": "(i) exhaustive: all sequences of <= 4 (quick) / 5 (thorough) tokens over 34 Ninja tokens (keywords, identifiers, spaces, newline, : | || |@ = $ '$ ' $-newline ${ } $x # tab NUL CR e-acute 0xff . .. / digit), each with and without a final newline, loaded from memory; (ii) mutations of valid generated manifests (truncate at a byte, delete/duplicate/swap ranges, raw bytes, dropped final newline, 10-800 character lines of multi-byte characters around an error, paths of 1-200 components, empty expansions); (iii) raw random bytes; (iv) depfile bytes; (v) deep/empty paths straight into the canonicaliser; (vi) include/subninja of itself, of a cycle, of a directory, of a missing file, of an empty expansion. Oracle: no panic, no abort (ub_checks/overflow/stack overflow kill the worker and are attributed by bisection), Ok or a non-empty diagnostic; parse errors must have the `parse error: ...`, `<file>:<line>: excerpt`, caret-line shape with the line in range; non-trivial = input that gets past the first statement keyword; evidence lists the distinct parser outcomes reached; process level also: depfiles left by a successful command, and trees with non-UTF-8 names built twice",
         "must_observe": ["exhaustive_inputs", "mutated_inputs", "include_cycle_inputs", "path_inputs", "depfile_inputs"],
         "assumptions": PURE_ASSUME + ["process-level clauses (exit status 1, `n2: error:` prefix) are checked by the black-box stage when present"],
     },
     "C13": {
         "stages": [pure(12, 240), real(6, 120), asan_pure(120), miri(1500), sim(8, 150), fuzz("canon", 120)],
-        "rule": "exhaustive over {a . / \\}^n for n <= 9 (quick) / 11 (thorough) and {a b . /}^n for n <= 8 / 10, then random paths of 1-60 components (UTF-8 names, .., ., empty, mixed separators) and re-spellings (inserted ./, x/../, doubled separators before the last component) which must canonicalise identically; checks: equals the independent component-list canonicaliser, idempotent, never longer, no ., empty or name/.. component left, .. only leading, same location; assert_unchecked/set_len preconditions are checked by the build profile; non-trivial = canon(p) != p; E1: histories in which commands report dependencies under several spellings (./x, a/../x, x) must be recorded under the canonical name and behave as one node (C09's workload); E2: command-line targets and depfile/showIncludes entries under other spellings through the real binary",
+        "rule": "exhaustive over {a . / \\}^n for n <= 9 (quick) / 11 (thorough) and {a b . /}^n for n <= 8 / 10, then random paths of 1-60 components (UTF-8 names, .., ., empty, mixed separators) and re-spellings (inserted ./, x/../, doubled separators before the last component) which must canonicalise identically; checks: equals the independent component-list canonicaliser, idempotent, never longer, no ., empty or name/.. component left, .. only leading, same location; assert_unchecked/set_len preconditions are checked by the build profile; non-trivial = canon(p) != p; E1: histories in which commands report dependencies under several spellings (./x, a/../x, x) must be recorded under the canonical name and behave as one node (C09's workload); E2: command-line targets and depfile/showIncludes entries under other spellings through the real binary; loader probe: two spellings of one location written into one manifest as output, input and default target must be one node",
         "must_observe": ["exhaustive_inputs", "random_inputs", "respell_pairs"],
         "assumptions": PURE_ASSUME,
     },
@@ -154,7 +154,7 @@ PROPS = {
     },
     "C15": {
         "stages": [pure(15, 240), asan_pure(120), miri(600), sim(8, 150), real(8, 150), fuzz("depfile", 120)],
-        "rule": "exhaustive totality over all strings of length <= 9 (quick) / 10 (thorough) over {a, space, ':', backslash, newline}; structured depfiles of 1-6 `target: prerequisites` entries rendered with 0-3 spaces before the colon, spaces and/or backslash-newline continuations with indentation between prerequisites, blank lines, trailing spaces, optional final newline, Windows-style C:/x\\y names, entries without prerequisites, repeated targets; read through n2's real depfile reader from a file and compared with the listed prerequisites in order (repeated targets: grouped under the first occurrence); missing depfile = empty; malformed content must fail with a parse error naming the depfile; non-trivial = >= 2 entries or a continuation; end to end: E1 histories in which the reported list grows, shrinks to nothing or changes spelling (C09 workload: what is recorded must be exactly the last report), and E2 histories with real depfiles written by the commands (continuations, optional final newline, sometimes no depfile at all when nothing is to be reported)",
+        "rule": "exhaustive totality over all strings of length <= 9 (quick) / 10 (thorough) over {a, space, ':', backslash, newline}; structured depfiles of 1-6 `target: prerequisites` entries rendered with 0-3 spaces before the colon, spaces and/or backslash-newline continuations with indentation between prerequisites, blank lines, trailing spaces, optional final newline, Windows-style C:/x\\y names, entries without prerequisites, repeated targets; read through n2's real depfile reader from a file and compared with the listed prerequisites in order (repeated targets: grouped under the first occurrence); missing depfile = empty; malformed content must fail with a parse error naming the depfile; non-trivial = >= 2 entries or a continuation; end to end: E1 histories in which the reported list grows, shrinks to nothing or changes spelling (C09 workload: what is recorded must be exactly the last report), and E2 histories with real depfiles written by the commands (continuations, optional final newline, sometimes no depfile at all when nothing is to be reported); end to end also: depfiles left as symbolic links, a depfile path with .. behind a symlinked directory, steps with both depfile and deps = msvc",
         "must_observe": ["exhaustive_inputs", "structured_inputs", "missing_depfile_checks", "malformed_rejected"],
         "assumptions": PURE_ASSUME,
     },
@@ -166,7 +166,7 @@ PROPS = {
     },
     "C16": {
         "stages": [real(25, 480, extra=["--strace", "1"]), real(0, 180, extra=["--strace", "0"], tiers=("thorough",), n2="asan"), real(0, 180, tiers=("thorough",), n2="tsan"), real(0, 120, extra=["--wrap", "valgrind -q --error-exitcode=99 --trace-children=no"], tiers=("thorough",), n2="release")],
-        "rule": "black box: 4-20 (quick) / 8-64 (thorough) independent tasks at -j 1-16 whose commands print planned byte streams (sizes 0, 1, 2, 4095, 4096, 4097, 8192, 65535, 65536, 65537, 150000, 300000; split over stdout and stderr in chunks of 1-70000 bytes, with and without final newline, with sleeps), exit with codes 0-255 or die by HUP/TERM/KILL/USR1/PIPE, use response files (quotes, UTF-8) and outputs in nested new directories; every agent checks cwd, stdin (/dev/null at EOF), open descriptors (only 0,1,2), stdout/stderr being one pipe, output directories, response file content and its argv; n2's stdout must contain each task's stream exactly once and contiguously, a `failed:` line exactly for the non-zero/signalled tasks, and the exit status must reflect them; every third case runs shell snippets (quotes, $$, redirections, subshells, backticks, UTF-8, tabs) under n2 and, as a differential twin, directly with /bin/sh -c, comparing the files produced, and a sample under strace compares the exact execve argv; non-trivial = at least 2 tasks with >= 4096 bytes of output and overlapping execution (from the agent log); every twelfth case sends SIGINT to n2's process group mid-build: n2 must stop starting commands and exit non-zero",
+        "rule": "black box: 4-20 (quick) / 8-64 (thorough) independent tasks at -j 1-16 whose commands print planned byte streams (sizes 0, 1, 2, 4095, 4096, 4097, 8192, 65535, 65536, 65537, 150000, 300000; split over stdout and stderr in chunks of 1-70000 bytes, with and without final newline, with sleeps), exit with codes 0-255 or die by HUP/TERM/KILL/USR1/PIPE, use response files (quotes, UTF-8) and outputs in nested new directories; every agent checks cwd, stdin (/dev/null at EOF), open descriptors (only 0,1,2), stdout/stderr being one pipe, output directories, response file content and its argv; n2's stdout must contain each task's stream exactly once and contiguously, a `failed:` line exactly for the non-zero/signalled tasks, and the exit status must reflect them; every third case runs shell snippets (quotes, $$, redirections, subshells, backticks, UTF-8, tabs) under n2 and, as a differential twin, directly with /bin/sh -c, comparing the files produced, and a sample under strace compares the exact execve argv; non-trivial = at least 2 tasks with >= 4096 bytes of output and overlapping execution (from the agent log); every twelfth case sends SIGINT to n2's process group mid-build: n2 must stop starting commands and exit non-zero; terminal stage: the same under a pseudo-terminal, judged on an emulated screen (every failed or non-hidden command's header and output lines exactly once, contiguously); deps = msvc on a third of the tasks with CR LF / bare CR in the streams; gated self-interrupt case (a command sends itself SIGINT with other steps queued: nothing may start afterwards, exit status non-zero)",
         "must_observe": ["agent_events", "task_outputs_checked", "twin_files_compared"],
         "assumptions": REAL_ASSUME,
     },
